@@ -28,6 +28,10 @@ from .util import drop_candidates
 HORIZON = 14          # samples inspected of endless readers
 
 
+INSPECT = ("is_lti", "is_causal", "numlist", "denlist", "numdict", "dendict",
+           "numerator", "denominator", "numpoly", "denpoly")
+
+
 class _Mismatch(Exception):
   def __init__(self, what, detail):
     Exception.__init__(self, detail)
@@ -281,6 +285,10 @@ class C06(Property):
             "cstream": W.choose("cstream", 4),
             # hashing a filter (set member, dict key) before it is called
             "hash_first": W.chance("hash", 1, 6),
+            # read-only questions asked before the call: none may consume
+            # anything from a coefficient stream
+            "inspect_first": [nm for nm in INSPECT
+                              if W.chance("inspect", 1, 8)],
             "memory": shape == "zeronum" or W.chance("memory", 1, 4)}
 
   def shrink_candidates(self, wl):
@@ -853,6 +861,19 @@ class C06(Property):
           res.counters["probe.filter-hashed-before-the-call"] += 1
         except TypeError:
           pass                      # unhashable is fine, later failure is not
+      for nm in wl.get("inspect_first") or ():
+        if tree["op"] in ("cascade", "parallel") and not nm.startswith("is"):
+          # the polynomials of a filter list are computed by multiplying /
+          # adding its members': algebra that uses the members' streams once
+          # more (a single-use hub is then rightly exhausted)
+          continue
+        try:
+          val = getattr(fB, nm, None)
+          if callable(val) and nm.startswith("is_"):
+            val()
+          res.counters["probe.filter-inspected-before-the-call"] += 1
+        except (ValueError, TypeError, AttributeError):
+          pass
       if memory is not None:
         out = fB(xsrc, memory=list(memory), zero=Fraction(0))
       else:
